@@ -330,6 +330,18 @@ func (s *IndexedState) add(ctx *Context, id string, x Map) (string, error) {
 		if err != nil {
 			Log(ERROR, ctx, "IndexedState.add", "state", s.Name, "error", err,
 				"when", "addHook")
+			// The add is rejected and the stored fact stays as it
+			// was: undo the changes made to the rule index above.
+			if rule != nil {
+				if _, scheduled := rule["schedule"]; !scheduled {
+					s.unindexRule(ctx, id, rule)
+				}
+			}
+			if oldRule != nil {
+				if _, scheduled := oldRule["schedule"]; !scheduled {
+					s.indexRule(ctx, id, oldRule)
+				}
+			}
 			return "", err
 		}
 	}
